@@ -46,7 +46,7 @@ type Program struct {
 	Pkg     string
 	Family  string
 	Desc    string
-	Types   []string // named empty struct types T0...
+	Types   []string            // named empty struct types T0...
 	Ifaces  map[string]string   // interface name -> implementing type name (pointer receiver)
 	Structs map[string][]string // field struct name -> "Field Type" lines
 	Consts  []string            // extra top-level declarations (Value sources)
